@@ -464,14 +464,14 @@ func TestC18ConnectSetup(t *testing.T) {
 		var fc faultCounters
 		actions := map[string]func(*rapid.T){
 			"gatedResend": gatedResend,
-			"attempt":  attempt,
-			"attempt2": attempt,
-			"pub0":     func(rt *rapid.T) { h.pub(0, false) },
-			"pub1":     func(rt *rapid.T) { h.pub(1, false) },
-			"pub2":     func(rt *rapid.T) { h.pub(2, false) },
-			"sub":      func(rt *rapid.T) { h.sub(byte(rapid.IntRange(0, 2).Draw(rt, "level")), 1) },
-			"ping":     func(rt *rapid.T) { h.ping() },
-			"":         func(rt *rapid.T) { noPanics(h); h.checkWire(); h.checkConnect(&cfg) },
+			"attempt":     attempt,
+			"attempt2":    attempt,
+			"pub0":        func(rt *rapid.T) { h.pub(0, false) },
+			"pub1":        func(rt *rapid.T) { h.pub(1, false) },
+			"pub2":        func(rt *rapid.T) { h.pub(2, false) },
+			"sub":         func(rt *rapid.T) { h.sub(byte(rapid.IntRange(0, 2).Draw(rt, "level")), 1) },
+			"ping":        func(rt *rapid.T) { h.ping() },
+			"":            func(rt *rapid.T) { noPanics(h); h.checkWire(); h.checkConnect(&cfg) },
 		}
 		fa := h.faultActions(rt, &fc)
 		for _, k := range []string{"releaseAcks", "breakNow", "appStep"} {
